@@ -57,6 +57,20 @@ def node_events(n: Node) -> list[Ev]:
     return [e for _, _, e in found]
 
 
+def canonical_events(fi: FuncInfo, n: Node) -> list[Ev]:
+    """``node_events`` with the element expression of START / END / DATA events written with alias temporaries looked through
+    (``qname = value.qname; yield START, qname`` names the same element as ``yield END, value.qname``)."""
+    from .q import expand
+
+    out = []
+    for ev in node_events(n):
+        y = ev.node
+        if ev.kind in ("S", "E", "D") and isinstance(y, ast.Yield) and isinstance(y.value, ast.Tuple) and len(y.value.elts) > 1:
+            ev = Ev(ev.kind, ast.unparse(expand(fi.node, y.value.elts[1])), y)
+        out.append(ev)
+    return out
+
+
 def is_event_generator(fi: FuncInfo) -> bool:
     for n in walk_no_nested(fi.node):
         if isinstance(n, ast.Yield) and event_of_yield(n) is not None:
@@ -77,7 +91,7 @@ def check_function(fi: FuncInfo, allow_unopened_attr: bool = False, tail_after_e
     problems: list[PathProblem] = []
     seen_problem_keys: set[str] = set()
     stats = {"paths": 0, "events": 0, "pairs": 0}
-    evs = {n.id: node_events(n) for n in g.nodes}
+    evs = {n.id: canonical_events(fi, n) for n in g.nodes}
     stats["events"] = sum(len(v) for v in evs.values())
     assigns = {}
     for n in g.nodes:
